@@ -222,6 +222,9 @@ func (g *WeightedUndirectedGraph) RemoveLine(fid, tid, id int64) {
 	if _, ok := g.nodes[tid]; !ok {
 		return
 	}
+	if _, ok := g.lines[fid][tid][id]; !ok {
+		return
+	}
 
 	delete(g.lines[fid][tid], id)
 	if len(g.lines[fid][tid]) == 0 {
